@@ -100,11 +100,19 @@ def ptCellText : Json → String
       | other => other.compress) ++ "]"
   | other => other.compress
 
+/-- `resultSortKey`: the key the sort of a local result uses (`DataRow.GetString`); lists by their joined elements -/
+def ptListKey (dtype : DataType) (j : Json) : String :=
+  match dtype, j with
+  | .strList, .arr xs => "\x00".intercalate (xs.toList.map ptCellText)
+  | .int64List, .arr xs => "[" ++ "\x00".intercalate (xs.toList.map fun x => toString (milliTrunc (jsonToMilli x))) ++ "]"
+  | _, _ => ptCellText j
+
 def ptKeyOf (dtype : DataType) (j : Json) : PKey :=
   match dtype with
   | .int | .int64 | .float => .num (jsonToMilli j)
-  | .str | .strLarge | .json | .strList | .int64List => .str (ptCellText j)
-  | _ => .any
+  | .str | .strLarge | .json | .strList | .int64List | .svcMemberList | .ifaceList => .str (ptListKey dtype j)
+  -- custom variable keys (`resultCustomVar`, empty values last) do not occur in a pass-through table
+  | .customVar => .any
 
 def ptKeys (req : Request) (p : PTPlan) (row : List Json) : List PKey :=
   (req.sort.filter (·.col.isSome)).zip p.sortIdx |>.map fun (sf, i) =>
